@@ -349,16 +349,26 @@ class Cx:
 
     # --- forks
     def feasible(self, extra):
+        """Is pc ∧ extra possibly satisfiable?  Only a definite `unsat` prunes (unknown/timeouts keep the path).
+        Stage 1: quantifier-free part only (sound: fewer hypotheses); stage 2: everything, short budget."""
         s = self.run.feas_solver
-        s.push()
-        try:
-            for a in self.pc:
-                s.add(a)
-            s.add(extra)
-            r = s.check()
-        finally:
-            s.pop()
-        return r != z3.unsat
+        for stage in (1, 2):
+            s.push()
+            try:
+                for a in self.pc:
+                    if stage == 1 and _has_quantifier(a):
+                        continue
+                    s.add(a)
+                s.add(extra)
+                s.set("timeout", 400 if stage == 1 else FEAS_TIMEOUT_MS)
+                r = s.check()
+            finally:
+                s.pop()
+            if r == z3.unsat:
+                return False
+            if stage == 1 and r == z3.sat and not any(_has_quantifier(a) for a in self.pc):
+                return True
+        return True
 
     def decide(self, cond) -> bool:
         if isinstance(cond, bool):
@@ -485,6 +495,29 @@ class Frame:
 
 
 MAX_INLINE_DEPTH = 6
+FEAS_TIMEOUT_MS = 600
+_qcache = {}
+
+
+def _has_quantifier(t):
+    k = t.get_id()
+    if k in _qcache:
+        return _qcache[k]
+    res = False
+    todo = [t]
+    seen = set()
+    while todo:
+        x = todo.pop()
+        i = x.get_id()
+        if i in seen:
+            continue
+        seen.add(i)
+        if z3.is_quantifier(x):
+            res = True
+            break
+        todo.extend(x.children())
+    _qcache[k] = res
+    return res
 
 
 class Interp:
